@@ -100,10 +100,53 @@ class Pump(object):
         return self.prov.state_machine.current_state + 1
 
 
+class LiveProvider(dulprovider.DULServiceProvider):
+    """the real provider; its thread is not started, the loop is run by the pump.  receive() - called by the
+    association in the user's thread - lets the provider thread run first, then lets the scripted peer react to what
+    was written, until something is there to be received (or nobody has anything left to do)."""
+    _vt_pump = None
+    _vt_peer = None
+    _vt_sock = None
+
+    def start(self):
+        pass
+
+    def receive(self, timeout):
+        pump = self._vt_pump
+        pump.run()
+        rounds = 0
+        while self.to_service_user.empty() and self._vt_peer is not None and rounds < 30:
+            rounds += 1
+            if not self._vt_peer(self._vt_sock):
+                break
+            pump.run()
+        return dulprovider.DULServiceProvider.receive(self, timeout)
+
+
+class PeerBot(object):
+    """scripted peer: react(new_pdus_written_by_the_library) -> list of byte segments to deliver (b'' = close)"""
+
+    def __init__(self, react):
+        self.react = react
+        self.seen = 0
+
+    def __call__(self, sock):
+        new = sock.sent[self.seen:]
+        self.seen = len(sock.sent)
+        segs = self.react(new)
+        for seg in segs or []:
+            if seg == b'':
+                sock.eof = True
+            else:
+                sock.inbox.append(seg)
+        return bool(segs)
+
+
 class LiveDulModule(object):
     """stands for the `dulprovider` module inside asceprovider: DULServiceProvider(...) builds a REAL provider (its
     thread is not started) on the StepSocket the harness prepared for the association that is being constructed"""
     next_socket = None
+    next_peer = None
     created = []
     Timer = dulprovider.Timer
     PDU_TYPES = dulprovider.PDU_TYPES
@@ -111,9 +154,14 @@ class LiveDulModule(object):
     @classmethod
     def DULServiceProvider(cls, store_in_file, get_file_cb, dul_socket=None, max_pdu_length=65536, **kw):
         sock = cls.next_socket
-        prov = sim.make_provider(sock, store_in_file, get_file_cb, max_pdu_length)
+        with sim._no_tracing():
+            prov = LiveProvider(store_in_file, get_file_cb, sock if dul_socket is not None else None, max_pdu_length)
+            prov.to_service_user = sim.SimQueue()
+            prov.from_service_user = sim.SimQueue()
         pump = Pump(prov, sock)
         prov._vt_pump = pump
+        prov._vt_sock = sock
+        prov._vt_peer = cls.next_peer
         cls.created.append(prov)
         return prov
 
@@ -131,6 +179,7 @@ def install(clock):
     dulprovider.select = sim.SimSelect()
     dulprovider.time = clock
     sockmod = sim.SocketModule()
+    sockmod.socket = lambda *a: LiveDulModule.next_socket      # AE-1 of a requester "connects" the prepared socket
     fsm.socket = sockmod
     asceprovider.dulprovider = LiveDulModule
     asceprovider.time = A.NoSleep
@@ -183,4 +232,23 @@ class LiveAcceptor(object):
 
     def wire(self):
         """everything the provider has written to the peer so far, PDU by PDU"""
+        return list(self.sock.sent)
+
+
+class LiveRequester(object):
+    """one requester-side association: real AssociationRequester over a real stepped provider, facing a scripted peer"""
+
+    def __init__(self, ae, remote_ae, react, max_pdu_length=None):
+        self.sock = StepSocket()
+        self.peer = PeerBot(react)
+        LiveDulModule.next_socket = self.sock
+        LiveDulModule.next_peer = self.peer
+        try:
+            self.asce = asceprovider.AssociationRequester(ae, max_pdu_length or ae.max_pdu_length, remote_ae)
+        finally:
+            LiveDulModule.next_peer = None
+        self.prov = self.asce.dul
+        self.pump = self.prov._vt_pump
+
+    def wire(self):
         return list(self.sock.sent)
